@@ -532,11 +532,8 @@ void tokenize_cleanup()
             pc->SetOrigLine(prev->GetOrigLine());
             Chunk *to_be_deleted = prev;
             prev = prev->GetPrevNcNnl();
-
-            if (prev->IsNotNullChunk())
-            {
-               Chunk::Delete(to_be_deleted);
-            }
+            // also when 'static' is the first token of the file
+            Chunk::Delete(to_be_deleted);
          }
       }
 
